@@ -125,6 +125,14 @@ def run(ctx: Ctx):
     for prefix in range(per - 3, per + 2):
         for seq in itertools.product(("ok", "okbad", "timeout", "ezsperr", "timeout2"), repeat=3 if ctx.quick else 4):
             jobs.append(("later", prefix, list(seq), False))
+    # runs of failures long enough to ask for a restart, started 6..0 feeds before the periodic read-and-clear feed (first and second period):
+    # the run must be counted across that feed whatever the feed itself does
+    for base in (per, 2 * per):
+        for prefix in range(base - 7, base + 1):
+            for a, b in itertools.product(("timeout", "ezsperr"), repeat=2):
+                jobs.append(("later", prefix, [a, b, a, b, a, b, a], False))
+            jobs.append(("later", prefix, ["timeout"] * 4 + ["ok"] + ["timeout"] * 6, False))
+            jobs.append(("later", prefix, ["timeout2", "timeout", "timeout2", "timeout", "timeout2", "okbad", "timeout"], False))
     for seq in itertools.product(("ok", "timeout", "timeout2"), repeat=5 if ctx.quick else 6):
         jobs.append(("later", 0, list(seq) + ["timeout", "timeout", "ezsperr", "timeout", "timeout"], False))
     # the zigpy watchdog loop around the feed
@@ -137,7 +145,7 @@ def run(ctx: Ctx):
     ctx.distinct_nontrivial = len({str(j) for j in jobs})
     ctx.rule = (f"every success/timeout/EZSP-error outcome sequence of length {L} for protocol version 4 and for a later version "
                 f"(shorter sequences are prefixes), and of length L-1 over (successful feed whose free-buffer read returns an error status, timeout, EZSP error, free-buffer timeout); all sequences of length 3-4 incl. a failing free-buffer read after {per - 3}..{per + 1} "
-                "successful feeds (counter-clear boundary); sequences through the zigpy watchdog loop; distinct = distinct (version, prefix, sequence, mode)")
+                "successful feeds (counter-clear boundary); restart-length failure runs started 7..0 feeds before the first and second periodic feed; sequences through the zigpy watchdog loop; distinct = distinct (version, prefix, sequence, mode)")
     ctx.exhaustive = True
     ctx.add_sample({"meta": metas[5], "trace": traces[5]})
     ctx.validate_traces("Trace_Watchdog", traces, constants=c, invariants=INVS, metas=metas, label="watchdog", sig=sig)
